@@ -14,6 +14,12 @@
 //     up below a running ancestor), and within one cleanup() call on the root / destruction / Main() phase no onStop
 //     runs after an onCleanup.  Roll-backs stay green: a roll-back inside initialize() only cleans up below ancestors
 //     that are not started, a roll-back inside start() only stops;
+//  D  end of life (round 3): the root is destroyed from whatever state the call sequence left it in, with or without a
+//     final cleanup().  ~Module() must then stop and clean up the tree itself: all the invariants above hold during the
+//     destruction as well, no non-root module may be destroyed while one of its successful hooks is unmatched, and the
+//     balance R must hold afterwards.  Only the ROOT's own hooks are exempt when the root is destroyed with open epochs
+//     (C++: ~Module() cannot reach the hooks of the derived object that is being destroyed); with a plain-Module root
+//     (`plainroot`) nothing is exempt;
 //  N  a child's init/cleanup hook runs only while its parent has an open init epoch, a child's start/stop
 //     hook only while its parent has an open start epoch ("parent before children, children before parent");
 //  F  within one call on the root the init hooks (and the start hooks) that run, run in pre-order
@@ -58,6 +64,8 @@ struct NodeSpec { int parent = -1; bool optional = false; int namemode = 0; int 
 struct TreeSpec {
   std::vector<NodeSpec> nodes;   // nodes[0] is the root; parent < own index
   bool fillcfg = false;          // build the config with fillDefaultConfig() (as Main() does) instead of by hand
+  bool plain_root = false;       // the root is a plain tbox::main::Module without hooks (like Main()'s `apps`), not a probe
+  bool no_final_cleanup = false; // end of life: destroy the root right after the last call, WITHOUT the final cleanup()
   bool cfg_missing(int i) const { return !fillcfg && nodes[i].namemode == 3; }
 };
 
@@ -176,6 +184,7 @@ struct Flags {   // what a case exercised (class labels / non-trivial rule)
   bool opt_fail_then_sibling_continues = false;
   bool cfg_missing_hit = false, retry_succeeds = false, reinit_after_cleanup = false, reached_running = false;
   bool noop_call = false, call_failed = false;
+  int destroyed_from = -1;                 // state of the root (by its log / state()) when it was destroyed without final cleanup()
   bool teardown_of_running_tree = false;   // cleanup()/destruction of a started tree without an explicit stop()
   bool nontrivial() const { return req_fail_after_ok_sibling_init || req_fail_after_ok_sibling_start || opt_halfway_init || opt_halfway_start; }
 };
@@ -200,13 +209,13 @@ class Oracle {
     seg_init_.assign(n, -1); seg_start_.assign(n, -1);
     int last_init_pre = -1, last_start_pre = -1;
     int cleanup_seen = -1;      // last node cleaned up in this call
-    if ((call == C_CLEANUP || call == C_DESTROY) && st_[0] == RUNNING) flags.teardown_of_running_tree = true;
+    if ((call == C_CLEANUP || call == C_DESTROY) && any_running()) flags.teardown_of_running_tree = true;
     size_t first = pos_;
     for (; pos_ < log.size(); ++pos_) {
       const Ev &e = log[pos_];
       if (e.node < 0 || (size_t)e.node >= n || e.kind < 0 || e.kind >= EVKINDS) return "HARNESS: malformed event";
       int x = e.node, p = t_.nodes[x].parent;
-      bool parent_silent = silent_root_ && p == 0;
+      bool parent_silent = (silent_root_ || root_gone_) && p == 0;
       if (dead_[x]) return at(call, x, e.kind) + " after the module was destroyed";
       switch (e.kind) {
         case INIT_OK: case INIT_FAIL:
@@ -248,7 +257,7 @@ class Oracle {
           if (st_[x] == RUNNING) return at(call, x, e.kind) + " while still started (its successful onStart was never matched by onStop)";
           if (st_[x] != INITED) return at(call, x, e.kind) + " without an unmatched successful onInit";
           for (int a = p; a >= 0; a = t_.nodes[a].parent)
-            if (st_[a] == RUNNING) return at(call, x, e.kind) + " while its ancestor " + nm(a) + " is still started (onStop of " + nm(a) + " has not run yet): all stops must precede all cleanups";
+            if (st_[a] == RUNNING && !(root_gone_ && a == 0)) return at(call, x, e.kind) + " while its ancestor " + nm(a) + " is still started (onStop of " + nm(a) + " has not run yet): all stops must precede all cleanups";
           cleanup_seen = x;
           if (p >= 0 && !parent_silent && st_[p] == NONE) return at(call, x, e.kind) + " after its parent " + nm(p) + " was already cleaned up (children must be cleaned up first)";
           if (init_stack_.empty() || init_stack_.back() != x)
@@ -257,6 +266,13 @@ class Oracle {
           break;
         case DTOR:
           dead_[x] = 1;
+          if (st_[x] != NONE) {
+            // the root's own hooks cannot be reached from ~Module() any more: its open epochs are exempt from here on
+            if (x == 0 && !silent_root_) root_gone_ = true;
+            else return std::string("during ") + call_name(call) + ": " + nm(x) + " was destroyed although its successful " +
+                        (st_[x] == RUNNING ? "onStart was never matched by onStop (nor its onInit by onCleanup)" : "onInit was never matched by onCleanup") +
+                        " - destroying the tree must stop and clean up every module below the root";
+          }
           break;
       }
     }
@@ -300,6 +316,21 @@ class Oracle {
         if (st_[0] != NONE) return "after cleanup() the root's successful onInit is still not matched by onCleanup";
       }
     }
+    if (silent_root_ && call <= C_CLEANUP) {    // plain-Module root driven directly (subs tree / exhaustive_small)
+      if (call == C_INIT && has_ret) {
+        if (ret && failed(0, true)) return "initialize() returned true although " + why_failed(0, true);
+        if (!ret && has_any(seg_init_) && !failed(0, true)) return "initialize() returned false although all required descendants' onInit succeeded";
+        if (!ret) flags.call_failed = true;
+      } else if (call == C_START && has_ret) {
+        if (ret && failed(0, false)) return "start() returned true although " + why_failed(0, false);
+        if (!ret && has_any(seg_start_) && !failed(0, false)) return "start() returned false although all required descendants' onStart succeeded";
+        if (!ret) flags.call_failed = true;
+      } else if (call == C_STOP) {
+        if (any_running()) return "after stop() on the root a module still has a successful onStart that is not matched by onStop";
+      } else if (call == C_CLEANUP) {
+        if (any_not_none()) return "after cleanup() on the root a module still has a successful onInit that is not matched by onCleanup";
+      }
+    }
     return "";
   }
 
@@ -316,6 +347,7 @@ class Oracle {
   // After cleanup() and destruction: every successful init/start must be matched; every node destroyed.
   std::string at_end(bool expect_destroyed) const {
     for (size_t x = 0; x < t_.nodes.size(); ++x) {
+      if (x == 0 && root_gone_) continue;   // see D: the destroyed root's own hooks are unreachable
       if (st_[x] == RUNNING) return nm((int)x) + ": a successful onStart was never matched by onStop (nor its onInit by onCleanup) although the tree was cleaned up and destroyed";
       if (st_[x] == INITED) return nm((int)x) + ": a successful onInit was never matched by onCleanup although the tree was cleaned up and destroyed";
       if (expect_destroyed && !(silent_root_ && x == 0) && !dead_[x]) return nm((int)x) + " was not destroyed with its parent";
@@ -328,6 +360,8 @@ class Oracle {
 
  private:
   void preorder(int x, int &c) { pre_[x] = c++; for (int k : kids_[x]) preorder(k, c); }
+  bool any_running() const { for (int k : st_) if (k == RUNNING) return true; return false; }
+  bool any_not_none() const { for (int k : st_) if (k != NONE) return true; return false; }
   static bool has_any(const std::vector<int> &v) { for (int k : v) if (k != -1) return true; return false; }
   std::string nm(int x) const {
     std::string s = "node " + std::to_string(x);
@@ -388,6 +422,7 @@ class Oracle {
 
   const TreeSpec &t_;
   bool silent_root_;
+  bool root_gone_ = false;     // the (probe) root was destroyed with open epochs
   std::vector<std::vector<int>> kids_;
   std::vector<int> pre_, st_, st_before_, seg_init_, seg_start_, memo_i_, memo_s_, init_stack_, start_stack_, init_ok_count_, init_attempts_;
   std::vector<char> dead_;
@@ -406,6 +441,10 @@ inline void apply_flags(const Flags &f, const TreeSpec &t, verif::CaseInfo &info
   info.cls_if(f.reached_running, "root_reached_running");
   info.cls_if(f.noop_call, "out_of_order_or_repeated_call");
   info.cls_if(f.teardown_of_running_tree, "cleanup_of_running_tree_without_explicit_stop");
+  info.cls_if(f.destroyed_from == 0, "destroyed_without_cleanup:kNone");
+  info.cls_if(f.destroyed_from == 1, "destroyed_without_cleanup:kInited");
+  info.cls_if(f.destroyed_from == 2, "destroyed_without_cleanup:kRunning");
+  info.cls_if(t.plain_root, "plain_Module_root");
   info.cls_if(f.call_failed, "root_call_returned_false");
   info.cls_if(t.nodes.size() >= 10, "nodes>=10");
   if (f.nontrivial()) info.nontrivial = true;
@@ -418,17 +457,19 @@ inline std::string run_tree_case(const TreeSpec &t, const int *calls, size_t nca
   DummyCtx ctx;
   std::vector<Module *> mods;
   const NodeSpec &r = t.nodes[0];
-  Probe *root = new Probe(w, 0, r, r.namemode == 0 ? std::string() : node_name(0), ctx);
+  std::string root_name = r.namemode == 0 ? std::string() : node_name(0);
+  Module *root = t.plain_root ? new Module(root_name, ctx) : new Probe(w, 0, r, root_name, ctx);
   mods.push_back(root);
   std::string err = build_nodes(t, w, ctx, mods, 1);
   if (!err.empty()) { delete root; return err; }
   Json cfg;
   if (t.fillcfg) { cfg = Json::object(); root->fillDefaultConfig(cfg); } else cfg = build_config(t);
 
-  Oracle o(t);
+  Oracle o(t, /*silent_root=*/t.plain_root);
   std::string state_err;   // reported only if no hook-level invariant is violated (the hook log is the primary evidence)
-  for (size_t k = 0; k <= ncalls && err.empty(); ++k) {
-    int call = k < ncalls ? calls[k] : C_CLEANUP;   // the sequence always ends with cleanup()
+  size_t total = t.no_final_cleanup ? ncalls : ncalls + 1;
+  for (size_t k = 0; k < total && err.empty(); ++k) {
+    int call = k < ncalls ? calls[k] : C_CLEANUP;   // unless `nocleanup`, the sequence ends with cleanup()
     w.seg = (int)k;
     bool has_ret = false, ret = false;
     switch (call) {
@@ -443,8 +484,10 @@ inline std::string run_tree_case(const TreeSpec &t, const int *calls, size_t nca
     else if (state_err.empty()) { state_err = o.check_states(call, mods); if (!state_err.empty()) state_err = where + state_err; }
   }
   w.seg = (int)ncalls + 1;
+  int state_at_destruction = (int)root->state();
+  if (t.no_final_cleanup && err.empty()) o.flags.destroyed_from = state_at_destruction;
   delete root;
-  if (err.empty()) err = o.after_call(w.log, C_DESTROY, false, false);
+  if (err.empty()) { err = o.after_call(w.log, C_DESTROY, false, false); if (!err.empty()) err = "destruction of the root in state " + std::string(state_at_destruction == 0 ? "kNone" : state_at_destruction == 1 ? "kInited" : "kRunning") + ": " + err; }
   if (err.empty()) err = o.at_end(true);
   if (!err.empty() && !state_err.empty()) err += "  [first state() disagreement: " + state_err + "]";
   if (err.empty()) err = state_err;
@@ -462,6 +505,8 @@ inline std::string case_text(const TreeSpec &t, const int *calls, size_t ncalls,
     s += b;
   }
   if (t.fillcfg) { s += "fillcfg"; s += sep; }
+  if (t.plain_root) { s += "plainroot"; s += sep; }
+  if (t.no_final_cleanup) { s += "nocleanup"; s += sep; }
   for (size_t i = 0; i < ncalls; ++i) { s += cn[calls[i] & 3]; s += sep; }
   return s;
 }
